@@ -21,6 +21,13 @@ Step(ev) ==
       /\ Ck("storage.aligned", IF Tr.targets THEN /\ Len(after.sy) = Len(after.sx)
                                                    /\ \A i \in 1..Len(after.sx) : after.sy[i] = 100 + after.sx[i]
                                ELSE Len(after.sy) = 0)
-Next == /\ l <= Len(Tr.ev) /\ Step(Tr.ev[l]) /\ l' = l + 1 /\ UNCHANGED tid
+\* C18: a replaced slot is explained by a uniform draw over the capacity from the global generators
+SlotExplained(ev) ==
+   LET before == ev.before.sx  after == ev.after.sx IN
+   (Len(before) = Len(after) /\ before # after /\ Tr.kind \in {"geometric", "uniform"}) =>
+      \E s \in 1..Len(after) : /\ after[s] # before[s]
+                               /\ \E q \in 1..Len(ev.draws) : ev.draws[q][1] = "uniform" /\ ev.draws[q][2] = Tr.cap
+                                                                /\ ev.draws[q][3] = s - 1
+Next == /\ l <= Len(Tr.ev) /\ Step(Tr.ev[l]) /\ Ck("draw.slot_explained", SlotExplained(Tr.ev[l])) /\ l' = l + 1 /\ UNCHANGED tid
 Spec == Init /\ [][Next]_vars
 ================================================================================
